@@ -74,6 +74,12 @@ def classify(ev):
         if m == "send_repeated_pixel":
             return Sym("REP", ev, recv)
         return Sym("IFACE_" + m, ev, recv)
+    if t == "mipidsi::dcs::InterfaceExt" and m == "write_command":
+        return Sym("WCMD", ev, recv, extra=ev.args[1] if len(ev.args) > 1 else None)
+    if t == "mipidsi::dcs::InterfaceExt" and m == "write_raw":
+        opv = ev.args[1]
+        op = opv.const() if isinstance(opv, IntV) else None
+        return Sym("WRAW", ev, recv, op=op, ops={op} if op is not None else None)
     if t == IPF:
         return Sym("PIX" if m == "send_pixels" else "REP", ev, recv, extra="format")
     if t == BUS:
